@@ -81,6 +81,7 @@ class TestTrace(trace.Trace):
             # remember the trace functions in effect, ``stop`` restores them
             self.old_trace = sys.gettrace()
             self.old_threading_trace = _threading_gettrace()
+            self.old_settrace = sys.settrace
             sys.settrace = settrace
             sys.settrace(self.globaltrace)
             threading.settrace(self.globaltrace)
@@ -89,7 +90,7 @@ class TestTrace(trace.Trace):
     def stop(self):
         assert self.started, "can't stop if not started"
         if not self.donothing:
-            sys.settrace = osettrace
+            sys.settrace = self.old_settrace
             sys.settrace(self.old_trace)
             threading.settrace(self.old_threading_trace)
         self.started = False
